@@ -7,6 +7,7 @@ def run(F, G, tier, seed):
     chk = Check("C17", tier, "other", seed)
     features.run(chk, F, G)
     descend.run(chk, F, ["uses_fp", "uses_hybrid"], [])
+    features.run_valuekind(chk, F)
     return chk.finish(
         "Decides completeness of the feature detectors over the expression forms the type checker admits in guards, "
         "invariants and updates (kinds taken from C10's decision table and the grammar's write kinds), and the "
